@@ -500,4 +500,9 @@ def run(tier, seed):
                 for k in ("copy", "accept", "report", "end-clean"):
                     for _ in range(stats.get(k, 0)):
                         rep.ok(rid, "is_dangerous_symlink: %s path conforms" % k, None, "%s:%s" % (ids.file, ids.line))
+        # ---- C11.*: what the confinement argument rests on -----------------------------------------------------------------------
+        # file_full_path joins header->path and header->filename to the extraction directory as they stand (only a leading '/' is
+        # skipped, R5): that stays inside only if the name has no separator and the path no '.', '..' or empty component - C11's rules.
+        from .c11 import name_path_rules
+        name_path_rules(rep, ctx, mod, cg, prefix="C11.")
     return rep.finish(seed)
